@@ -257,6 +257,37 @@ class Bounds:
         return None
 
 
+class CompBounds(Bounds):
+    """Bounds for a comprehension `{k: ... for k, m in X.items()}` / `[... for k, m in X.items()]`."""
+
+    def __init__(self, C, comp):
+        gen = comp.generators[0]
+        self.C = C
+        self.dv = comp
+        self.key, self.meta = gen.target.elts[0].id, gen.target.elts[1].id
+        self.hdr = None
+        self.bind = None
+        self.carried = None
+
+    def loop_var_ok(self, name, at):
+        return name in (self.key, self.meta)     # comprehension-scoped, cannot be rebound
+
+
+def dv_comprehension(node):
+    """Innermost enclosing comprehension of `node` with one generator `for k, m in X.items()` and no filter."""
+    for a in astx.ancestors(node):
+        if isinstance(a, (ast.FunctionDef, ast.Lambda)):
+            return None
+        if isinstance(a, (ast.DictComp, ast.ListComp, ast.GeneratorExp)) and len(a.generators) == 1:
+            gen = a.generators[0]
+            it = unwrap_iter(gen.iter)
+            if isinstance(gen.target, ast.Tuple) and len(gen.target.elts) == 2 and \
+                    all(isinstance(e, ast.Name) for e in gen.target.elts) and isinstance(it, ast.Call) and \
+                    astx.callee_attr(it) == 'items':
+                return a
+    return None
+
+
 def same_value(C, a, at_a, b, at_b):
     """True / False / None: do expressions a (at node at_a) and b (at at_b) denote the same value?"""
     if isinstance(a, ast.Name) and isinstance(b, ast.Name) and a.id == b.id:
@@ -953,30 +984,62 @@ def levels(repo, out):
                         continue
                     out.ok(fa, rt, 'uniform levels: self._levels repeated once per element of every variable')
                     continue
-            # dict form: sum([v * [f(k)] for k, v in sizes.items()], [])
+            # dict form: sum([v * [f(k)] for k, v in sizes.items()], []), or the same as an accumulation loop
+            #            R = []; for k, v in sizes.items(): R.extend(v * [f(k)]); return R
             comp = None
+            target = it_e = elt = None
+            filt = False
             if isinstance(v, ast.Call) and astx.call_name(v) == 'sum' and len(v.args) == 2 and \
                     isinstance(v.args[1], ast.List) and not v.args[1].elts and \
                     isinstance(v.args[0], (ast.ListComp, ast.GeneratorExp)):
                 comp = v.args[0]
-            if comp is None:
+                if len(comp.generators) != 1:
+                    out.unsure(fa, rt, 'comprehension shape not recognised')
+                    continue
+                gen = comp.generators[0]
+                target, it_e, elt, filt = gen.target, gen.iter, comp.elt, bool(gen.ifs)
+            elif isinstance(rt.value, ast.Name) and isinstance(v, ast.List) and not v.elts:
+                R = rt.value.id
+                g_ = CA.g
+                rdef = next(iter(CA.rd.defs(at, R)))
+                exts = []
+                for n_ in g_.nodes:
+                    if n_.kind != 'stmt':
+                        continue
+                    for c_ in n_.calls():
+                        if astx.callee_attr(c_) in ('extend', 'append') and isinstance(astx.receiver(c_), ast.Name) \
+                                and astx.receiver(c_).id == R and rdef in CA.rd.defs(n_, R):
+                            exts.append((n_, c_))
+                if len(exts) != 1 or astx.callee_attr(exts[0][1]) != 'extend' or len(exts[0][1].args) != 1:
+                    out.unsure(fa, rt, f'accumulation of the level list `{R}` not recognised')
+                    continue
+                en, ec = exts[0]
+                lp = next((l for l in CA.loops_of(en.ast)), None)
+                if lp is None:
+                    out.unsure(fa, rt, f'`{R}.extend(...)` is not inside a loop over the sizes')
+                    continue
+                lh = CA.at(lp)
+                entry_ = [m for m, lab in g_.succ[lh] if lab == 'true']
+                w_skip = g_.path(entry_, [lh], avoid=[en], labels=cfgm.noexc)
+                filt = w_skip is not None
+                if g_.path(g_.normal_succ(rdef), [at], avoid=[lh], labels=cfgm.noexc) is not None:
+                    out.bad(fa, rt, f'the level list `{R}` can be returned without running the loop that fills it',
+                            key='levels-count')
+                    continue
+                target, it_e, elt = lp.target, lp.iter, ec.args[0]
+            if elt is None:
                 out.unsure(fa, rt, f'level list expression not recognised: {astx.src(v)}')
                 continue
-            if len(comp.generators) != 1 or comp.generators[0].ifs:
-                if comp.generators and comp.generators[0].ifs:
-                    out.bad(fa, rt, 'the level list skips variables by a filter: the design has fewer factors than '
-                            'the table has rows', key='levels-count')
-                else:
-                    out.unsure(fa, rt, 'comprehension shape not recognised')
+            if filt:
+                out.bad(fa, rt, 'the level list skips variables by a filter: the design has fewer factors than '
+                        'the table has rows', key='levels-count')
                 continue
-            gen = comp.generators[0]
-            if not (isinstance(gen.target, ast.Tuple) and len(gen.target.elts) == 2 and
-                    all(isinstance(x, ast.Name) for x in gen.target.elts) and isinstance(gen.iter, ast.Call) and
-                    astx.callee_attr(gen.iter) == 'items' and sizes_path(astx.receiver(gen.iter), at)):
-                out.unsure(fa, rt, f'level list does not iterate self._sizes.items(): {astx.src(gen.iter)}')
+            if not (isinstance(target, ast.Tuple) and len(target.elts) == 2 and
+                    all(isinstance(x, ast.Name) for x in target.elts) and isinstance(it_e, ast.Call) and
+                    astx.callee_attr(it_e) == 'items' and sizes_path(astx.receiver(it_e), at)):
+                out.unsure(fa, rt, f'level list does not iterate self._sizes.items(): {astx.src(it_e)}')
                 continue
-            kn, vn = gen.target.elts[0].id, gen.target.elts[1].id
-            elt = comp.elt
+            kn, vn = target.elts[0].id, target.elts[1].id
             if not (isinstance(elt, ast.BinOp) and isinstance(elt.op, ast.Mult)):
                 if isinstance(elt, ast.List) and len(elt.elts) == 1:
                     out.bad(fa, rt, f'each variable contributes one factor (`{astx.src(elt)}`) instead of one per '
@@ -1549,10 +1612,11 @@ def uniform(repo, out):
         for c in draws:
             st = astx.stmt_of(c)
             dvloop = next((l for l in C.loops_of(st) if is_items_loop(l)), None)
-            if dvloop is None:
+            comp = dv_comprehension(c) if dvloop is None else None
+            if dvloop is None and comp is None:
                 out.unsure(fn, st, 'draw is not inside a loop over the variables')
                 continue
-            B = Bounds(C, dvloop)
+            B = Bounds(C, dvloop) if dvloop is not None else CompBounds(C, comp)
             at = C.at(st)
             lo, hi = astx.arg(c, 0, 'low'), astx.arg(c, 1, 'high')
             if lo is None or hi is None:
@@ -1571,6 +1635,20 @@ def uniform(repo, out):
                         'variable: samples are constant or leave the bounds', key='uniform-bounds')
                 continue
             # where does the draw go?
+            if comp is not None:
+                # {key: <... draw ...> for key, meta in X.items()} : one entry per variable, keyed by its name
+                if comp.generators[0].ifs:
+                    out.bad(fn, st, 'the comprehension filters variables: some variables get no sample',
+                            key='uniform-emit-var')
+                elif isinstance(comp, ast.DictComp) and isinstance(comp.key, ast.Name) and comp.key.id == B.key and \
+                        any(w_ is c for w_ in ast.walk(comp.value)):
+                    out.ok(fn, st, f'draw between {B.meta}[lower] and {B.meta}[upper], stored under [{B.key}] by a '
+                           'dict comprehension over the variables')
+                elif isinstance(comp, ast.DictComp) and any(w_ is c for w_ in ast.walk(comp.value)):
+                    out.bad(fn, st, f'draw for `{B.key}` stored under `{astx.src(comp.key)}`', key='uniform-store')
+                else:
+                    out.unsure(fn, st, 'destination of the draw inside the comprehension not recognised')
+                continue
             caseloop = None
             outer = C.loops_of(dvloop)
             if outer:
@@ -2675,6 +2753,13 @@ def order(repo, out):
                     prods.append(('level list of the design', fa, astx.stmt_of(w_), k, bool(gen.ifs)))
                 else:
                     prods.append(('level list of the design', fa, astx.stmt_of(w_), None, False))
+        for lp_ in [st_ for st_ in astx.walk_stmts(fa.node.body) if isinstance(st_, ast.For)]:
+            k = order_key(CA, lp_.iter, CA.at(lp_))
+            if k is not None and k[1] == 'self._sizes' and prods[0][3] is not None:
+                k = _norm_order((k[0] + prods[0][3][0], prods[0][3][1]))
+                prods.append(('level list of the design', fa, lp_, k, False))
+            else:
+                prods.append(('level list of the design', fa, lp_, None, False))
         # sampling twin: values are matched to names positionally by AnalysisGenerator.__next__
         if P.rel == SP:
             AG = 'openmdao/drivers/analysis_generator.py'
@@ -2737,9 +2822,43 @@ def units(repo, out):
                 return None
             if isinstance(b, ast.Subscript) and astx.path(b.value) == 'self._designvars':
                 return 'dv'
-            p = astx.path(b) or ''
+            p = xpath(b, at) or ''
             if 'abs2meta' in p and "['output']" in p:
                 return 'src'
+        return None
+
+    def xpath(e, at, depth=0):
+        """Access path with local temporaries expanded (`t = a.b['output']; t[x]` -> a.b['output'][*])."""
+        if depth > 6:
+            return None
+        if isinstance(e, ast.Name):
+            v = C.rd.value(at, e.id)
+            if v is not None:
+                return xpath(v, next(iter(C.rd.defs(at, e.id))), depth + 1)
+            return e.id
+        if isinstance(e, ast.Attribute):
+            b_ = xpath(e.value, at, depth + 1)
+            return None if b_ is None else f'{b_}.{e.attr}'
+        if isinstance(e, ast.Subscript):
+            b_ = xpath(e.value, at, depth + 1)
+            if b_ is None:
+                return None
+            return f'{b_}[{e.slice.value!r}]' if isinstance(e.slice, ast.Constant) else f'{b_}[*]'
+        return astx.path(e)
+
+    def given_side(test, cands):
+        """'pos' if test true => the units expression is not None, 'neg' if test true => it is None, else None."""
+        if isinstance(test, ast.UnaryOp) and isinstance(test.op, ast.Not):
+            return {'pos': 'neg', 'neg': 'pos'}.get(given_side(test.operand, cands))
+        if isinstance(test, ast.Compare) and len(test.ops) == 1 and \
+                isinstance(test.ops[0], (ast.Is, ast.IsNot, ast.Eq, ast.NotEq)):
+            a, b = test.left, test.comparators[0]
+            if isinstance(a, ast.Constant) and a.value is None:
+                a, b = b, a
+            if isinstance(b, ast.Constant) and b.value is None and any(astx.same(a, c_) for c_ in cands):
+                return 'pos' if isinstance(test.ops[0], (ast.IsNot, ast.NotEq)) else 'neg'
+        if any(astx.same(test, c_) for c_ in cands):
+            return 'pos'      # truthiness of a units string
         return None
     calls = [(n, c) for n in C.g.nodes if n.kind == 'stmt' for c in n.calls() if astx.callee_attr(c) == 'convert_units']
     if not calls:
@@ -2766,12 +2885,25 @@ def units(repo, out):
             out.unsure(fn, n.ast, 'converted value is not written back to the slot it was read from')
             continue
         # the branch is taken exactly when these units are given
-        gd = next((a for a in astx.ancestors(n.ast) if isinstance(a, ast.If)), None)
         cands = [frm]
         if isinstance(frm, ast.Name) and C.rd.value(n, frm.id) is not None:
             cands.append(C.rd.value(n, frm.id))
-        if gd is None or not any(astx.same(w_, c_) for w_ in astx.walk(gd.test) for c_ in cands):
+        side = None
+        for a in astx.ancestors(n.ast):
+            if a is fn.node:
+                break
+            if isinstance(a, ast.If):
+                t = given_side(a.test, cands)
+                if t is not None:
+                    side = t if astx.in_body(n.ast, a, 'body') else {'pos': 'neg', 'neg': 'pos'}[t]
+                    break
+        if side is None:
             out.unsure(fn, n.ast, f'conversion is not guarded by a test on `{astx.src(frm)}`')
+            continue
+        if side == 'neg':
+            out.bad(fn, n.ast, f'the conversion from `{astx.src(frm)}` runs on the branch where `{astx.src(frm)}` is None '
+                    '(and not where units are given): a value given in other units than the source is applied '
+                    'unconverted', key='units-guard')
             continue
         out.ok(fn, n.ast, f'value converted from `{astx.src(frm)}` (design-variable units) to the source units and '
                'written back to the same elements')
@@ -3221,4 +3353,89 @@ selftest(
     Twin('twin-slots-subscript-alias', SU, "                'indices': meta.get('indices', None)\n            }", "                'indices': idx\n            }",
          also=[(SU, "            d[name] = {\n", "            idx = meta.get('indices')\n            d[name] = {\n")]),
     Twin('twin-slots-consumer-keywords', AD, "self._problem().model.set_val(var, val, units, idxs)", "self._problem().model.set_val(var, val, indices=idxs, units=units)"),
+)
+
+
+# =========================================================================== self-test (second robustness round)
+_GAL_SP_OLD = ("        sizes = self._sizes\n"
+               "        if isinstance(self._levels, int):  # All have the same number of levels\n"
+               "            return [self._levels] * sum(self._sizes.values())\n"
+               "        elif isinstance(self._levels, dict):  # Different DVs have different number of levels\n"
+               "            return sum([v * [self._get_levels(k)] for k, v in sizes.items()], [])\n"
+               "        else:\n"
+               "            raise ValueError(f\"Levels should be an int or dictionary, not '{type(self._levels)}'\")\n")
+
+
+def _gal_loop(elt, loop="for name, size in sizes.items():", guard=""):
+    return ("        sizes = self._sizes\n        levels = self._levels\n"
+            "        if isinstance(levels, int):  # All have the same number of levels\n"
+            "            return [levels] * sum(sizes.values())\n"
+            "        if not isinstance(levels, dict):\n"
+            "            raise ValueError(f\"Levels should be an int or dictionary, not '{type(levels)}'\")\n\n"
+            "        all_levels = []\n"
+            f"        {loop}\n{guard}"
+            f"            {'    ' if guard else ''}all_levels.extend({elt})\n"
+            "        return all_levels\n")
+
+
+_NEXT_SU_OLD = ("        d = {}\n        for name, meta in self._var_dict.items():\n            d[name] = {\n"
+                "                'val': self._rng.uniform(meta['lower'], meta['upper'], sizes[name]),\n"
+                "                'units': meta.get('units', None),\n                'indices': meta.get('indices', None)\n"
+                "            }\n        self._run_count += 1\n        return d\n")
+
+
+def _next_comp(key="name", hi="meta['upper']"):
+    return ("        rng = self._rng\n\n        sample = {\n"
+            f"            {key}: {{\n"
+            f"                'val': rng.uniform(low=meta['lower'], high={hi}, size=sizes[name]),\n"
+            "                'units': meta.get('units', None),\n                'indices': meta.get('indices', None)\n"
+            "            }\n            for name, meta in self._var_dict.items()\n        }\n"
+            "        self._run_count = self._run_count + 1\n        return sample\n")
+
+
+_UNITS_OLD = ("            if units is not None:\n"
+              "                src_units = problem.model._var_abs2meta['output'][src_name]['units']\n"
+              "                desvar[loc_idxs] = convert_units(desvar[loc_idxs], units, src_units)\n"
+              "            elif meta['units'] is not None:\n"
+              "                src_units = problem.model._var_allprocs_abs2meta['output'][src_name]['units']\n"
+              "                desvar[loc_idxs] = convert_units(desvar[loc_idxs], meta['units'], src_units)\n")
+
+
+def _units_nested(outer="units is None", a="meta['units'], src_units", b="units, src_units"):
+    return (f"            if {outer}:\n"
+            "                if meta['units'] is not None:\n"
+            "                    abs2meta_out = problem.model._var_allprocs_abs2meta['output']\n"
+            "                    src_units = abs2meta_out[src_name]['units']\n"
+            f"                    desvar[loc_idxs] = convert_units(desvar[loc_idxs], {a})\n"
+            "            else:\n"
+            "                abs2meta_out = problem.model._var_abs2meta['output']\n"
+            "                src_units = abs2meta_out[src_name]['units']\n"
+            f"                desvar[loc_idxs] = convert_units(desvar[loc_idxs], {b})\n")
+
+
+selftest(
+    'C23',
+    # accumulation loop instead of sum(list-of-lists, []), aliases, early return/raise (benign C23_b2_1)
+    Twin('twin-levels-extend-loop', SP, _GAL_SP_OLD, _gal_loop("size * [self._get_levels(name)]")),
+    Mutant('levels-extend-loop-ignore-default', SP, _GAL_SP_OLD, _gal_loop("size * [levels.get(name, _LEVELS)]"), 'C23.levels'),
+    Mutant('levels-extend-loop-one-per-dv', SP, _GAL_SP_OLD, _gal_loop("[self._get_levels(name)]"), 'C23.levels'),
+    Mutant('levels-extend-loop-filtered', SP, _GAL_SP_OLD,
+           _gal_loop("size * [self._get_levels(name)]", guard="            if size > 1:\n"), 'C23.levels'),
+    Mutant('order-extend-loop-sorted', SP, _GAL_SP_OLD,
+           _gal_loop("size * [self._get_levels(name)]", loop="for name, size in sorted(sizes.items()):"), 'C23.order'),
+    Twin('twin-dvlevels-inverted-early-return', SP,
+         "        if isinstance(levels, int):\n            return levels\n        else:\n            return levels.get(name, levels.get(\"default\", _LEVELS))",
+         "        if not isinstance(levels, int):\n            fallback = levels.get(\"default\", _LEVELS)\n            return levels.get(name, fallback)\n        return levels"),
+    # dict comprehension, rng alias, keyword arguments (benign C23_b2_2)
+    Twin('twin-uniform-dict-comprehension', SU, _NEXT_SU_OLD, _next_comp()),
+    Mutant('uniform-comprehension-high-is-lower', SU, _NEXT_SU_OLD, _next_comp(hi="meta['lower']"), 'C23.uniform'),
+    Mutant('uniform-comprehension-wrong-key', SU, _NEXT_SU_OLD, _next_comp(key="'x'"), 'C23.uniform'),
+    Twin('twin-seed-sampling-if-else-alias', SU,
+         "        self._rng = np.random.RandomState(self._seed) if self._seed is not None else np.random\n",
+         "        seed = self._seed\n        if seed is None:\n            self._rng = np.random\n        else:\n"
+         "            self._rng = np.random.RandomState(seed)\n"),
+    # nested guards with inverted test, abs2meta temporary (benign C23_b2_3)
+    Twin('twin-units-nested-inverted', DRV, _UNITS_OLD, _units_nested()),
+    Mutant('units-nested-direction', DRV, _UNITS_OLD, _units_nested(a="src_units, meta['units']"), 'C23.units'),
+    Mutant('units-nested-wrong-side', DRV, _UNITS_OLD, _units_nested(outer="units is not None"), 'C23.units'),
 )
